@@ -120,10 +120,17 @@ def cache_dir():
     d = os.path.join(CACHE, tree_key())
     if not os.path.isdir(d):
         os.makedirs(d, exist_ok=True)
-        # keep only the newest key
-        for other in os.listdir(CACHE):
-            if other != tree_key() and not os.environ.get("MZSA_KEEP_CACHE"):
+        # keep the few most recently used keys (the unchanged tree stays cached while a modified tree is analysed in between)
+        if not os.environ.get("MZSA_KEEP_CACHE"):
+            others = [o for o in os.listdir(CACHE) if o != tree_key()]
+            others.sort(key=lambda o: os.path.getmtime(os.path.join(CACHE, o)), reverse=True)
+            for other in others[3:]:
                 shutil.rmtree(os.path.join(CACHE, other), ignore_errors=True)
+    else:
+        try:
+            os.utime(d, None)
+        except OSError:
+            pass
     return d
 
 
